@@ -82,8 +82,10 @@ func (s *STUNConn) ReadFrom(payload []byte) (n int, addr net.Addr, err error) {
 	}
 
 	// Then read from the nextConn, appending to our buff
+	// A Read may hand out the last bytes of the stream together with io.EOF (a tls.Conn does):
+	// they are framed first, the next Read repeats the error.
 	n, err = s.nextConn.Read(payload)
-	if err != nil {
+	if err != nil && n <= 0 {
 		return 0, nil, err
 	}
 
